@@ -1329,6 +1329,11 @@ class Interp:
             def array(x, dtype=None, copy=None, subok=False, order=None, ndmin=0, like=None, _n=name):
                 if ndmin or like is not None:
                     raise AnalysisAbort(f"np.{_n} with ndmin / like")
+                if isinstance(x, AArr) and _n == "ascontiguousarray" and x.ndim == 0:
+                    # documented: "Return a contiguous array (ndim >= 1)": a 0-d array comes back with shape (1,)
+                    return AArr((NP.ONE,), x.term, x.buf, view=True, dtype=x.dtype, origin=(x, None))
+                if isinstance(x, (SymScalar, int, float)) and _n == "ascontiguousarray":
+                    return AArr((NP.ONE,), NP.as_term(x), NP.Buf("np.ascontiguousarray"))
                 if isinstance(x, AArr):
                     if _n == "array" and copy is not False:
                         return NP.copy_arr(x, "np.array")
